@@ -299,3 +299,42 @@ func VC20_Deque() {
 	vf.Assert(run.finished, "iterator-still-blocked-after-close-or-cancellation")
 	vf.Assert(vf.Live() == 0, "helper-goroutine-left-behind")
 }
+
+// The Queue's iterator and its blocked producers wait on the same condition:
+// an Add admitted on burst credit must still reach a parked iterator although
+// a BlockingAdd is parked too (and stays parked).
+func VC20_QueueSharedCond() {
+	q, err := NewQueue[vc05item](QueueOptions{HardLimit: 3, SoftQuota: 1})
+	vf.Assert(err == nil, "newqueue-rejected-valid-options")
+	vf.Assert(q.Add(vc05item{ID: 1}) == nil, "first-add-failed")
+	ctx, cancel := context.WithCancel(context.Background())
+	run := &vc20run{}
+	producerFirst := vf.Choice("producer-parks-first", 2) == 1
+	startIter := func() { vf.Go(func() { run.iterate(ctx, q.Producer(), 4) }) }
+	blockedDone := false
+	startProd := func() {
+		vf.Go(func() { _ = q.BlockingAdd(ctx, vc05item{ID: 9}); blockedDone = true })
+	}
+	if producerFirst {
+		startProd()
+		vf.Quiesce()
+		startIter()
+	} else {
+		startIter()
+		vf.Quiesce()
+		startProd()
+	}
+	vf.Quiesce()
+	vf.Reach("both-parked")
+	vf.Assert(len(run.yields) == 1 && !run.finished, "iterator-did-not-yield-the-present-item-and-park")
+	// admitted on burst credit (length == soft quota, credit available)
+	added := q.Add(vc05item{ID: 2}) == nil
+	vf.Quiesce()
+	if added && !blockedDone {
+		vf.Assert(len(run.yields) == 2, "iterator-parked-or-ended-with-an-unseen-item-present")
+	}
+	cancel()
+	vf.Quiesce()
+	vf.Assert(run.finished, "iterator-still-blocked-after-close-or-cancellation")
+	vf.Assert(vf.Live() == 0, "helper-goroutine-left-behind")
+}
